@@ -1356,3 +1356,32 @@ Proof.
     (destruct (wnode_move _ s p col row Hn Hpos Hp Hbg Hin Hm Hs Hcm) as [nf E]; rewrite E;
      unfold child_view; destruct (m_ok (v_move _ _ _ _)); split; reflexivity).
 Qed.
+
+(* ------------------------------------------------------------------------------------------ *)
+(* the translated padding / filler arithmetic never produces a negative margin (no trimming)   *)
+(* ------------------------------------------------------------------------------------------ *)
+Lemma clrp_nonneg maxcol at_ aamt wt wamt minw l r :
+  wt <> GClip ->
+  0 <= fst (calculate_left_right_padding maxcol at_ aamt wt wamt minw l r) /\
+  0 <= snd (calculate_left_right_padding maxcol at_ aamt wt wamt minw l r).
+Proof.
+  intro Hc. unfold calculate_left_right_padding.
+  set (width := if match wt with GRelative => true | _ => false end then _ else _).
+  set (k := int_scale _ _ _). clearbody k width.
+  assert (N : match wt with GClip => false | _ => true end = true) by (destruct wt; congruence).
+  rewrite N. cbn [andb].
+  destruct ((r + k <? 0) && (0 <? maxcol - width - (r + k))) eqn:E1.
+  - match goal with |- context [if ?c then _ else _] => destruct c eqn:E2 end; cbn [fst snd]; lia.
+  - destruct ((maxcol - width - (r + k) <? 0) && (0 <? r + k)) eqn:E3;
+      match goal with |- context [if ?c then _ else _] => destruct c eqn:E2 end; cbn [fst snd]; lia.
+Qed.
+Lemma ctbf_nonneg maxrow vt vamt ht hamt minh t b :
+  0 <= fst (calculate_top_bottom_filler maxrow vt vamt ht hamt minh t b) /\
+  0 <= snd (calculate_top_bottom_filler maxrow vt vamt ht hamt minh t b).
+Proof.
+  unfold calculate_top_bottom_filler.
+  set (height := if match ht with GRelative => true | _ => false end then _ else _).
+  set (k := int_scale _ _ _). clearbody k height.
+  destruct ((b + k <? 0) && (0 <? maxrow - height - (b + k))) eqn:E1; cbn [fst snd]; [lia|].
+  destruct ((maxrow - height - (b + k) <? 0) && (0 <? b + k)) eqn:E3; cbn [fst snd]; lia.
+Qed.
